@@ -199,7 +199,7 @@ def Ty.TS (sfh : Bool) (t : Ty) : Prop :=
   | .array e _ => Ty.TS sfh e
   | .hash k v _ => Ty.TS sfh k ∧ Ty.TS sfh v
   | .variant ts => ∀ t', ∀ (_ : t' ∈ ts), Ty.TS sfh t'
-  | .optional t' | .notUndef t' | .sensitive t' | .typ t' | .iterable t' => Ty.TS sfh t'
+  | .optional t' | .notUndef t' | .sensitive t' | .iterator t' | .typ t' | .iterable t' => Ty.TS sfh t'
   | _ => True
 termination_by t.w
 decreasing_by
@@ -224,6 +224,7 @@ theorem Ty.TS.tg : ∀ (n : Nat) (t : Ty), t.w ≤ n → t.TS sfh → Ty.WF cfg 
     · exact fun t' hm => ih t' (by have := Ty.w_lt_wl hm; omega) (h t' hm) (wf t' hm)
     · exact ⟨h.1, wf.1, fun m hm => ih m.2.2 (by have := Ty.w_lt_wm hm; omega) (h.2 m hm) (wf.2 m hm)⟩
     · exact fun t' hm => ih t' (by have := Ty.w_lt_wl hm; omega) (h t' hm) (wf t' hm)
+    · exact ih _ (by omega) h wf
     · exact ih _ (by omega) h wf
     · exact ih _ (by omega) h wf
     · exact ih _ (by omega) h wf
